@@ -17,7 +17,7 @@ GEN = {"quick": dict(GnbN=4, MnbN=2, KmN=3, FtRows=1), "thorough": dict(GnbN=5, 
 # per family: sizes up to COMPLETE are kept completely, every larger enumerated size is a seeded sample of KEEP cases
 COMPLETE = {"quick": dict(gnb=3, mnb=1, kmeans=1, ftrl=1), "thorough": dict(gnb=3, mnb=2, kmeans=2, ftrl=2)}
 KEEP = {"quick": dict(gnb=500, mnb=700, kmeans=600, ftrl=0), "thorough": dict(gnb=5000, mnb=6000, kmeans=4000, ftrl=0)}
-RANDOM = {"quick": dict(gnb=300, mnb=250, kmeans=300, ftrl=300), "thorough": dict(gnb=3000, mnb=2500, kmeans=3000, ftrl=3000)}
+RANDOM = {"quick": dict(gnb=300, mnb=250, kmeans=300, ftrl=300, gnb_off=200, ftrl_scaled=150), "thorough": dict(gnb=3000, mnb=2500, kmeans=3000, ftrl=3000, gnb_off=1500, ftrl_scaled=1000)}
 INVS = ["InvGaussian", "InvPriors", "InvMultinomial", "InvKMeans", "InvKmCount", "InvRelations", "FtFactsOnce"]
 TRACE_CONST = dict(MaxN=0, MaxV=0, MaxC=1)
 
@@ -148,7 +148,55 @@ def random_ftrl(ctx, count, thorough):
         z0 = [R(r.randint(-8, 8), 4) for _ in range(d)] if init == "given" else []
         n0 = [R(r.choice([0, 0, 1, 4, 9]), 4) for _ in range(d)] if init == "given" else []
         out.append({"kind": "ftrl", "inp": {"d": d, "hyper": r.choice(FT_HYPERS), "seed": r.randint(0, 1000), "init": init,
-                                            "z0": z0, "n0": n0, "batches": batches}})
+                                            "ft": r.choice(["f64", "f64", "f32"]), "z0": z0, "n0": n0, "batches": batches}})
+    return out
+
+
+def random_gnb_offset(ctx, count):
+    """large-offset small-spread features (timestamps): every feature is shifted by the exactly representable 2^offk;
+    2..4 batches in which the classes recur, so that the pooled mean/variance merge really runs"""
+    out, r = [], ctx.rng
+    for _ in range(count):
+        n = r.randint(6, 12)
+        d = r.randint(1, 2)
+        ncls = 2
+        labels = [i % ncls for i in range(n)]
+        r.shuffle(labels)
+        rows = [[r.randint(0, 6) + (2 if labels[i] == 1 else 0) for _ in range(d)] for i in range(n)]
+        nb = r.randint(2, 4)
+        cuts = compositions_random(r, n, nb)
+        while len(cuts) < 2:
+            cuts = compositions_random(r, n, nb)
+        queries = [[r.randint(0, 8) for _ in range(d)] for _ in range(4)]
+        # var_smoothing 0 keeps these histories about the mean/variance merge alone. With the default 1e-9 the unchanged
+        # tree is itself rejected at 2^30 / 2^40 (max_pooled_variance subtracts raw second moments: proposed fix
+        # docs/reports/C15-fix-gnb-pooled-variance-centred.diff); C15_OFFSET_SMOOTHING=1 generates that variant.
+        vs = R(1, 1000000000) if os.environ.get("C15_OFFSET_SMOOTHING") == "1" else R(0)
+        out.append({"kind": "gnb", "inp": {"d": d, "rows": rows, "labels": labels, "cuts": cuts, "vs": vs,
+                                           "queries": queries, "offk": r.choice([20, 30, 30, 40])}})
+    return out
+
+
+def random_ftrl_scaled(ctx, count):
+    """badly scaled feature: a few batches with feature values 2^10..2^11 (large gradients, n ~ 10^7), then ordinary
+    values (gradients ~ 10^-3 of the accumulated scale: in f32 g^2 is absorbed by n). The recurrence is homogeneous for
+    l1 = l2 = 0 and beta proportional to the unit, so the state is logged in units of 2^10 (harness) and the
+    specification runs the ordinary-magnitude recurrence with x / unit."""
+    out, r = [], ctx.rng
+    for _ in range(count):
+        d = r.randint(1, 2)
+        unit = 1024
+        batches = []
+        for _ in range(r.randint(2, 3)):
+            m = r.randint(1, 2)
+            batches.append({"x": [[unit * r.choice([-2, -1, 1, 2]) for _ in range(d)] for _ in range(m)], "y": [r.random() < 0.5 for _ in range(m)]})
+        for _ in range(r.randint(2, 3)):
+            batches.append({"x": [[r.choice([-2, -1, 1, 2, 3]) for _ in range(d)]], "y": [r.random() < 0.5]})
+        hyper = dict(alpha=r.choice([R(1, 2), R(1), R(1, 10)]), beta=r.choice([R(1, 2), R(1)]), l1=R(0), l2=R(0))
+        out.append({"kind": "ftrl", "inp": {"d": d, "hyper": hyper, "seed": r.randint(0, 1000), "init": "given", "unit": unit,
+                                            "ft": r.choice(["f32", "f32", "f64"]),
+                                            "z0": [R(r.randint(-8, 8), 4) for _ in range(d)], "n0": [R(r.choice([0, 0, 1]), 4) for _ in range(d)],
+                                            "batches": batches}})
     return out
 
 
@@ -190,6 +238,7 @@ def build_cases(ctx):
     rn = RANDOM[ctx.tier]
     th = not ctx.quick
     cases += random_gnb(ctx, rn["gnb"], th) + random_mnb(ctx, rn["mnb"], th) + random_kmeans(ctx, rn["kmeans"], th) + random_ftrl(ctx, rn["ftrl"], th)
+    cases += random_gnb_offset(ctx, rn["gnb_off"]) + random_ftrl_scaled(ctx, rn["ftrl_scaled"])
     ctx.extra["enumerated_domain"] = exhaustive_parts
     return cases
 
